@@ -189,4 +189,47 @@ def rule_typaren(ctx, prop):
                                   f"loses them", loc, cfg)
                 if n == 0:
                     rep.anchor(False, f"{fname}: no operand formatting call found in the {K} arm", cfg)
+        # parentheses that may be dropped: `(T)` is replaced by T only when keep_parentheses(T, context) says so - T itself must
+        # then have been formatted under that same context, or a second pair inside (`((A | B))?`) is judged as if it stood alone
+        g = prog.fn("stylua_lib", "formatters::luau::format_type_info_internal")
+        if g is not None:
+            fam = [g] + [x for x in prog.fns("stylua_lib") if x.path.startswith(g.path + "::{closure")]
+            kp = [(b, t) for b, t in g.calls() if callee(t).endswith("luau::keep_parentheses")]
+            if rep.anchor(bool(kp), "keep_parentheses call in format_type_info_internal (the Tuple arm)", cfg):
+                ctx_params = [i for i in range(1, g.argc + 1) if "TypeInfoContext" in g.locals[i]]
+                fresh = []
+                nsites = 0
+                for b, t in g.calls():
+                    if not guarded_by_variant(g, b, "TypeInfo", "Tuple", only=False):
+                        continue
+                    c = callee(t)
+                    if not re.search(r"general::format_punctuated$", c):
+                        continue
+                    nsites += 1
+                    for a in t["args"]:
+                        fnp = (a.get("rfn") or a.get("fn")) if is_const(a) else None
+                        if fnp and re.search(r"luau::format_type_info$|luau::format_hangable_type_info$", fnp):
+                            fresh.append((fnp.split("::")[-1], t))
+                        elif not is_const(a):
+                            for r in provenance(g, a, through=None, into_aggs=False):
+                                if r[0] == "agg" and r[1].startswith("closure "):
+                                    h = prog.fn("stylua_lib", r[1][len("closure "):])
+                                    if h is None:
+                                        continue
+                                    for hb, ht in h.calls():
+                                        hc = callee(ht)
+                                        if re.search(r"luau::format_type_info$", hc):
+                                            fresh.append((hc.split("::")[-1] + " in the closure", t))
+                                        elif re.search(r"luau::format_type_info_internal$", hc):
+                                            ca = [x for x in ht["args"] if not is_const(x) and "TypeInfoContext" in h.local_ty(op_place(x)["l"])]
+                                            if ca and not any(r2[0] == "upvar" for r2 in provenance(h, ca[0], through=re.compile(
+                                                    PROV_THROUGH.pattern + r"|TypeInfoContext::mark_\w+$"))):
+                                                fresh.append(("a context that is not the enclosing one", t))
+                rep.inst(f"{g.key} single-line tuple contents formatted under the enclosing context", {"format_punctuated_sites": nsites}, cfg, ok=not fresh)
+                for what, t in fresh[:2]:
+                    rep.violation(f"{g.key} tuple-contents-formatted-under-fresh-context via={what.split(' ')[0]}",
+                                  f"in the Tuple arm of format_type_info_internal the types inside `( .. )` are formatted through {what} "
+                                  f"(a fresh TypeInfoContext) on the single-line path, where the outer pair may be dropped: a nested "
+                                  f"pair is then judged without within_optional / contains_union, so `((A | B))?` becomes `A | B?`",
+                                  g.loc(t["sp"]), cfg)
     return rep
